@@ -425,6 +425,7 @@ class Interproc:
         an.invariants = self.invariants
         an.nowrap = self.nowrap
         an.cargs = self.cargs_of(bid)
+        an.infeasible = getattr(self, "infeasible", {}).get(self.base(bid), ())
         an.s9_unsigned = an.s9_unsigned or getattr(self, "s9_unsigned", False)
         an.mag = getattr(self, "mag", False)
         if an.mag:
@@ -469,6 +470,7 @@ class Interproc:
                     an2.invariants = self.invariants
                     an2.nowrap = self.nowrap
                     an2.cargs = self.cargs_of(bid)
+                    an2.infeasible = getattr(self, "infeasible", {}).get(self.base(bid), ())
                     absdom.MAX_PARAM = b.argc
                     res2 = an2.analyze(b, entry=st0, collect=False)
                     for xb in b.exits:
